@@ -15,7 +15,9 @@ type Proxy struct {
 
 func NewProxy(inner datamodel.NodeBuilder) *Proxy { return &Proxy{Inner: inner} }
 
-func (p *Proxy) Builder() datamodel.NodeBuilder { return &proxyBuilder{proxyNA{p: p, na: p.Inner, depth: 0}} }
+func (p *Proxy) Builder() datamodel.NodeBuilder {
+	return &proxyBuilder{proxyNA{p: p, na: p.Inner, depth: 0}}
+}
 
 type proxyNA struct {
 	p     *Proxy
@@ -54,15 +56,15 @@ func (a proxyNA) BeginList(sizeHint int64) (datamodel.ListAssembler, error) {
 	}
 	return proxyLA{a.p, la, a.depth + 1}, nil
 }
-func (a proxyNA) AssignNull() error                    { return a.na.AssignNull() }
-func (a proxyNA) AssignBool(v bool) error              { return a.na.AssignBool(v) }
-func (a proxyNA) AssignInt(v int64) error              { return a.na.AssignInt(v) }
-func (a proxyNA) AssignFloat(v float64) error          { return a.na.AssignFloat(v) }
-func (a proxyNA) AssignString(v string) error          { return a.na.AssignString(v) }
-func (a proxyNA) AssignBytes(v []byte) error           { return a.na.AssignBytes(v) }
-func (a proxyNA) AssignLink(v datamodel.Link) error    { return a.na.AssignLink(v) }
-func (a proxyNA) AssignNode(v datamodel.Node) error    { return a.na.AssignNode(v) }
-func (a proxyNA) Prototype() datamodel.NodePrototype   { return a.na.Prototype() }
+func (a proxyNA) AssignNull() error                  { return a.na.AssignNull() }
+func (a proxyNA) AssignBool(v bool) error            { return a.na.AssignBool(v) }
+func (a proxyNA) AssignInt(v int64) error            { return a.na.AssignInt(v) }
+func (a proxyNA) AssignFloat(v float64) error        { return a.na.AssignFloat(v) }
+func (a proxyNA) AssignString(v string) error        { return a.na.AssignString(v) }
+func (a proxyNA) AssignBytes(v []byte) error         { return a.na.AssignBytes(v) }
+func (a proxyNA) AssignLink(v datamodel.Link) error  { return a.na.AssignLink(v) }
+func (a proxyNA) AssignNode(v datamodel.Node) error  { return a.na.AssignNode(v) }
+func (a proxyNA) Prototype() datamodel.NodePrototype { return a.na.Prototype() }
 
 type proxyMA struct {
 	p     *Proxy
@@ -70,8 +72,12 @@ type proxyMA struct {
 	depth int
 }
 
-func (m proxyMA) AssembleKey() datamodel.NodeAssembler   { return proxyNA{m.p, m.ma.AssembleKey(), m.depth} }
-func (m proxyMA) AssembleValue() datamodel.NodeAssembler { return proxyNA{m.p, m.ma.AssembleValue(), m.depth} }
+func (m proxyMA) AssembleKey() datamodel.NodeAssembler {
+	return proxyNA{m.p, m.ma.AssembleKey(), m.depth}
+}
+func (m proxyMA) AssembleValue() datamodel.NodeAssembler {
+	return proxyNA{m.p, m.ma.AssembleValue(), m.depth}
+}
 func (m proxyMA) AssembleEntry(k string) (datamodel.NodeAssembler, error) {
 	va, err := m.ma.AssembleEntry(k)
 	if err != nil {
@@ -79,8 +85,8 @@ func (m proxyMA) AssembleEntry(k string) (datamodel.NodeAssembler, error) {
 	}
 	return proxyNA{m.p, va, m.depth}, nil
 }
-func (m proxyMA) Finish() error                                { return m.ma.Finish() }
-func (m proxyMA) KeyPrototype() datamodel.NodePrototype        { return m.ma.KeyPrototype() }
+func (m proxyMA) Finish() error                                   { return m.ma.Finish() }
+func (m proxyMA) KeyPrototype() datamodel.NodePrototype           { return m.ma.KeyPrototype() }
 func (m proxyMA) ValuePrototype(k string) datamodel.NodePrototype { return m.ma.ValuePrototype(k) }
 
 type proxyLA struct {
@@ -89,6 +95,8 @@ type proxyLA struct {
 	depth int
 }
 
-func (l proxyLA) AssembleValue() datamodel.NodeAssembler { return proxyNA{l.p, l.la.AssembleValue(), l.depth} }
-func (l proxyLA) Finish() error                          { return l.la.Finish() }
+func (l proxyLA) AssembleValue() datamodel.NodeAssembler {
+	return proxyNA{l.p, l.la.AssembleValue(), l.depth}
+}
+func (l proxyLA) Finish() error                                  { return l.la.Finish() }
 func (l proxyLA) ValuePrototype(i int64) datamodel.NodePrototype { return l.la.ValuePrototype(i) }
